@@ -10,6 +10,9 @@ SUITES = [
           "selects that have several ready cases after the stop and the implementation must agree with one of them",
           version="v1", impl_ints=False, batch_timeout=120, variants=timed.join_stop_variants),
 ]
+
+SUITES.append(Suite("simple1", prio.simple1_generate(["stop", "cancel", "double-stop", "stop-during-graceful"]), None, prio.monitor_simple1("C16"),
+                    rule=prio.SIMPLE1_RULE, version="v1", impl_ints=False, batch_timeout=120, model=False))
 ASSUMPTIONS = [
     "model: Prio1.sched_step / Join.jstep with a stop alternative at every blocking point; Go's random choice among ready select cases is an oracle",
     "Stop()/cancel are injected at quiescent points of the scenario (after a settle); in between the discipline is blocked or idle",
